@@ -38,6 +38,8 @@ class Obl:
     check: Any  # str (spec expression) | callable(ctx)
     when: str = "return"  # 'return' | 'raise' | 'any'
     canary: Any = None  # a deliberately wrong variant that must be refuted (vacuity guard)
+    native: str | None = None  # native form of the postcondition when `check` is not a spec string
+    scenario: str | None = None  # replay scenario script for structural obligations
 
 
 @dataclass
@@ -56,6 +58,8 @@ class Unit:
     max_paths: int = 4000
     run: Any = None  # custom runner(ctx) replacing the plain call (for traces)
     notes: str = ""
+    native_func: str | None = None  # "module:attr" to call natively in the replay (default: derived from func)
+    replayable: bool = True
 
 
 class Ctx:
@@ -270,6 +274,9 @@ class OblResult:
     model: Any = None
     path: int = -1
     canary: bool = False
+    replay: str | None = None  # path of the replay file
+    replay_verdict: str = ""  # 'violates' | 'holds' | 'none' | 'error'
+    finding: str | None = None
 
 
 @dataclass
@@ -296,7 +303,15 @@ def setup_ctx(unit: Unit, st: State) -> Ctx:
     ctx = Ctx(unit, I)
     idx = get_index()
     if unit.names is not None:
-        ctx.names = unit.names(I)
+        if callable(unit.names):
+            ctx.names = unit.names(I)
+        else:
+            for k, q in unit.names.items():
+                m, a = q.split(":")
+                v = I.module_global(m, a.split(".")[0])
+                for part in a.split(".")[1:]:
+                    v = I.getattr(v, part)
+                ctx.names[k] = v
     for name, t in unit.params:
         if callable(t):
             ctx.args[name] = t(ctx)
@@ -337,6 +352,10 @@ def run_path(unit: Unit, st: State):
     return (ctx, outcome)
 
 
+KNOWN: list = []  # entries of known_findings.json (set by the CLI)
+REPLAY_DIR = "out/replay"
+
+
 def run_unit(unit: Unit, timeout_ms: int = 10000, canaries: bool = True) -> UnitResult:
     t0 = time.time()
     ur = UnitResult(unit)
@@ -365,10 +384,14 @@ def run_unit(unit: Unit, timeout_ms: int = 10000, canaries: bool = True) -> Unit
                 if res.model is None:
                     res.status = "discharged"  # path infeasible after all
                     res.detail = "path infeasible"
+                else:
+                    esc = Obl(f"{unit.name}/raises-only-allowed", None, "raise")
+                    _after_failure(unit, esc, ctx, st, None, res, outcome, timeout_ms)
             ur.results.append(res)
         for ob in unit.obligations:
             if ob.when != "any" and ob.when != outcome:
                 continue
+            n_counts, n_pc = len(st.counts), len(st.pc)
             try:
                 goals = _goals(ob.check, ctx)
                 cgoals = _goals(ob.canary, ctx) if (canaries and ob.canary is not None) else []
@@ -379,11 +402,18 @@ def run_unit(unit: Unit, timeout_ms: int = 10000, canaries: bool = True) -> Unit
                 ur.results.append(OblResult(f"{ob.name}#p{pi}", "error", "", 0.0, "spec raised", path=pi))
                 continue
             for suffix, goal in goals:
-                ur.results.append(_discharge(f"{ob.name}{suffix}#p{pi}", st, goal, timeout_ms, pi))
+                r = _discharge(f"{ob.name}{suffix}#p{pi}", st, goal, timeout_ms, pi)
+                if r.status == "failed":
+                    _after_failure(unit, ob, ctx, st, goal, r, outcome, timeout_ms)
+                ur.results.append(r)
             for suffix, goal in cgoals:
                 r = _discharge(f"{ob.name}{suffix}#p{pi}!canary", st, goal, min(timeout_ms, 5000), pi)
                 r.canary = True
                 ur.results.append(r)
+            # counts / facts introduced by this obligation's specification are local to it
+            del st.counts[n_counts:]
+            del st.pc[n_pc:]
+            st._solver = None
         if len(ur.samples) < 3:
             ur.samples.append(dict(path=pi, outcome=outcome, pc=[str(z3.simplify(p))[:160] for p in st.pc[:6]],
                                    effects=[repr(e)[:160] for e in st.effects[:8]]))
@@ -429,3 +459,108 @@ def _discharge(name: str, st: State, goal, timeout_ms: int, pi: int) -> OblResul
         if status2 != "failed":
             status, backend, model, detail = status2, backend2 + "+q", model2, detail2
     return OblResult(name, status, backend, time.time() - t0, detail, model, pi)
+
+
+def _after_failure(unit: Unit, ob: Obl, ctx: Ctx, st: State, goal, r: OblResult, outcome: str, timeout_ms: int) -> None:
+    """Known-finding residual, then native replay of the counter-model."""
+    import json
+    import os
+    import subprocess
+
+    from .concretize import Concretizer
+
+    base = r.name.split("#")[0]
+    # 1. residual proof for recorded findings: goal OR known_class(inputs)
+    for kf in KNOWN:
+        if kf.get("status", "open") != "open" or kf.get("property") != unit.prop:
+            continue
+        if not base.startswith(kf.get("obligation", "\0")):
+            continue
+        if goal is None or "residual" not in kf:
+            continue
+        try:
+            res = ctx.ev(kf["residual"])
+        except (Unsupported, PyRaise, KeyError, SyntaxError):
+            continue
+        status, backend, model, detail = smt.prove(list(st.pc) + count_axioms(st), z3.Or(goal, res), timeout_ms)
+        if status == "discharged":
+            r.status, r.finding, r.backend = "known", kf["id"], backend + "+residual"
+            r.detail = kf.get("description", "")
+            return
+    # 2. native replay
+    os.makedirs(os.path.join(REPLAY_DIR, unit.prop), exist_ok=True)
+    fname = os.path.join(REPLAY_DIR, unit.prop, base.replace("/", "_") + f"_p{r.path}.json")
+    post = ob.check if isinstance(ob.check, str) else ob.native
+    spec = {"property": unit.prop, "obligation": r.name, "unit": unit.name, "func": unit.native_func or unit.func.replace(":", ":", 1),
+            "names": unit.names if isinstance(unit.names, dict) else {}, "post": post, "when": ob.when,
+            "allowed_raises": unit.allowed_raises, "verifier": {"backend": r.backend, "detail": r.detail}}
+    replayable = unit.replayable and r.model is not None and unit.run is None and (post is not None or ob.check is None)
+    if replayable:
+        cur = ctx.I.st
+        try:
+            st0 = ctx.st0
+            ctx.I.st = st0
+            for oid, rec in st.objs.items():
+                if oid in st0.objs:
+                    for nme in rec.meta.get("lazy", []):
+                        if nme not in st0.objs[oid].fields:
+                            try:
+                                ctx.I.obj_getattr(SObj(oid), nme)
+                            except (PyRaise, Unsupported):
+                                pass
+            for lid, rec in st.lists.items():
+                if lid in st0.lists:
+                    st0.lists[lid].field_types.update(rec.field_types)
+                    for k2, child in rec.meta.items():
+                        if k2.startswith("child:") and k2 not in st0.lists[lid].meta:
+                            pass
+            cz = Concretizer(ctx.I, r.model)
+            spec["args"] = {n: cz.value(v) for n, v in ctx.args.items()}
+            spec["arg_order"] = [n for n, _ in unit.params]
+            spec["self"] = cz.value(ctx.self_val) if ctx.self_val is not None else None
+        except Exception as e:  # concretisation problem: fall back to a structural report
+            replayable = False
+            spec["concretize_error"] = f"{type(e).__name__}: {e}"
+        finally:
+            ctx.I.st = cur
+    spec["model"] = _model_text(r.model)
+    spec["replay_cmd"] = f"/venv/bin/python replay/native.py {fname}"
+    with open(fname, "w") as fh:
+        json.dump(spec, fh, indent=1, default=str)
+    r.replay = fname
+    if replayable:
+        env = dict(os.environ)
+        try:
+            p = subprocess.run(["/venv/bin/python", os.path.join(os.path.dirname(os.path.dirname(__file__)), "replay", "native.py"), fname],
+                               capture_output=True, text=True, timeout=120, env=env)
+            r.detail = (p.stdout or "").strip()[-600:] or (p.stderr or "").strip()[-600:]
+            r.replay_verdict = {0: "holds", 1: "violates"}.get(p.returncode, "error")
+        except subprocess.TimeoutExpired:
+            r.replay_verdict = "error"
+        spec["native"] = {"verdict": r.replay_verdict, "output": r.detail}
+        with open(fname, "w") as fh:
+            json.dump(spec, fh, indent=1, default=str)
+        if r.replay_verdict == "violates":
+            r.status = "violation"
+        elif r.replay_verdict == "holds":
+            r.status = "undecided"
+            r.detail = "counter-model is spurious: the real code satisfies the postcondition on it; " + r.detail
+        else:
+            r.status = "violation"
+            r.replay_verdict = "none"
+    else:
+        r.status = "violation"
+        r.replay_verdict = "none"
+    r.model = None
+
+
+def _model_text(m) -> dict:
+    if m is None:
+        return {}
+    out = {}
+    try:
+        for d in m.decls()[:400]:
+            out[d.name()] = str(m[d])[:200]
+    except Exception:
+        pass
+    return out
